@@ -38,7 +38,7 @@ WEIGHTS = {
     'scope': 16, 'until': 14, 'spawn': 8, 'raise': 2.5, 'cancel': 5, 'await_task': 3,
     'wait': 12, 'setflag': 3, 'settracked': 2, 'lock': 1, 'put': 1, 'get': 1, 'iter': 0.5,
     'close': 0.5, 'borrow': 1, 'resource': 0.5, 'transfer': 1, 'ticker': 1, 'collect': 2,
-    'first': 1, 'guard': 6,
+    'first': 1, 'guard': 6, 'watch': 6,
 }
 
 
